@@ -156,4 +156,23 @@ example : CfgOk demoCfg ∧ (run demoCfg (init demoCfg [.tcp]) demoOps).fault = 
     ((run demoCfg (init demoCfg [.tcp]) demoOps).wk 1).queue = [(1, 0), (2, 0)] :=
   ⟨⟨by decide, by decide, by decide⟩, by decide, by decide, by decide, by decide⟩
 
+-- hypotheses of the per-function theorems are met by reachable states
+def s0 : St := init demoCfg [.tcp, .uds]
+example : 0 < s0.nLst ∧ ((s0.lst 0).kind = .tcp ∨ (s0.lst 0).linked = true) := by decide
+example : 1 < s0.nLst ∧ ((s0.lst 1).kind = .tcp ∨ (s0.lst 1).linked = true) := by decide
+def s1 : St := run demoCfg s0 [.env (.connect 1), .env (.connect 1)]
+example : (s1.lst 1).inject = [] ∧ (s1.lst 1).backlog = [(0, 1), (1, 1)] := by decide
+-- both workers dead and discovered: the connection is dropped, no handle is left (`dropped_only_without_workers`)
+def sNoWorkers : St := run demoCfg s0 [.env (.die 0), .env (.die 1)]
+example : (acceptOne demoCfg 8 sNoWorkers (5, 0)).fault = none ∧
+    (acceptOne demoCfg 8 sNoWorkers (5, 0)).dispatched = sNoWorkers.dispatched ∧
+    (acceptOne demoCfg 8 sNoWorkers (5, 0)).handles = [] ∧ sNoWorkers.handles = [0, 1] := by decide
+-- a queued connection at a live worker (`recv_takes_queue_head`), then in progress (`finish_moves_one`)
+def s2 : St := run demoCfg s1 [.poll [.listener 1] []]
+example : 0 < s2.nWk ∧ (s2.wk 0).alive = true ∧ (s2.wk 0).queue = [(0, 1)] := by decide
+def s3 : St := run demoCfg s2 [.env (.recv 0)]
+example : pickInflight (s3.wk 0) none = some (0, 1) ∧ pickInflight (s3.wk 0) (some 0) = some (0, 1) := by decide
+-- `dispatched_left_backlog`: connection 0 is in the dispatch log of s2
+example : 0 < ids (s2.dispatched.map (·.1)) 0 := by decide
+
 end ActixNet.C01
